@@ -51,7 +51,7 @@ class CbMixin:
         func : Callable
             the callback function
         """
-        cls.cb = func  # pragma: nocover
+        cls.cb = staticmethod(func)  # pragma: nocover
 
 
 class ProgressBar:
